@@ -7,6 +7,7 @@ from .base import *   # noqa
 class C10(Check):
     pid = 'C10'
     validate = True
+    fork_logging = True       # DEBUG logging on/off is a symbolic input of every path
     element_theory = 'BITS (opaque 64-bit payloads: bit-for-bit copy semantics); INT for sizes and labels'
     anchors = [('src/fast_ticc/data_preparation.py', 'stack_training_data'),
                ('src/fast_ticc/data_preparation.py', 'stack_training_data_multiple_series'),
